@@ -38,6 +38,9 @@ func init() {
 			{ID: "C08.17", Desc: "each stored validator is sent on its own account (a background 304 is recognised)", Run: func(c *Ctx) { ruleEachValidatorOnItsOwn(c, "C08.17") }, MinSites: 1},
 			{ID: "C08.18", Desc: "other variants remain listed: the filter of the reference list runs to the end of the list", Run: func(c *Ctx) { ruleFilterLoopRunsToEnd(c, "C08.18") }, MinSites: 1},
 			{ID: "C08.19", Desc: "the memory backend stores a copy of its own for every write-back (a shorter index does not keep the old tail)", Run: func(c *Ctx) { ruleStoredValueIsFresh(c, "C08.19") }, MinSites: 1},
+			{ID: "C08.20", Desc: "the entry's request time is read from the clock in front of the origin call and its response time behind it, on every path into the entry", Run: func(c *Ctx) { ruleTimeRoles(c, "C08.20") }, MinSites: 2},
+			{ID: "C08.21", Desc: "the background revalidation reads its copy of the entry after the origin answered (a representation stored in between is not overwritten by the late 304)", Run: func(c *Ctx) { ruleBackgroundReadsAfterOrigin(c, "C08.21") }, MinSites: 1},
+			{ID: "C08.22", Desc: "on the 304 branch the merge of the 304's fields precedes the write-back on every path", Run: func(c *Ctx) { ruleMergeBeforeWriteBack(c, "C08.22") }, MinSites: 1},
 		},
 	})
 }
@@ -502,7 +505,12 @@ func ruleMergeFilter(c *Ctx, rule string) {
 			if call == nil || call.StaticCallee() != m || len(call.Args) != 2 {
 				return
 			}
-			tk, sk := c.An.ResponseKinds(call.Args[0]), c.An.ResponseKinds(call.Args[1])
+			ti := c.mergeTargetParam(m)
+			if ti < 0 {
+				c.Undecided(rule, "merge-direction fn="+c.P.ShortName(fn), "the merge writes the origin's fields into the stored response", c.P.InstrPos(in)+": the parameter the merge writes into was not recognised")
+				return
+			}
+			tk, sk := c.responseKindsOfArg(call.Args[ti]), c.responseKindsOfArg(call.Args[1-ti])
 			if tk["stored"] && sk["upstream"] && !tk["upstream"] && !sk["stored"] {
 				c.Pass(rule, "merge-direction fn="+c.P.ShortName(fn), "the merge writes the origin's fields into the stored response", c.P.InstrPos(in))
 			} else {
@@ -808,4 +816,80 @@ func ruleC08_9(c *Ctx) {
 	if n == 0 {
 		c.Undecided("C08.9", "context-list", desc, "no call of the validation handler")
 	}
+}
+
+// mergeTargetParam: the index (0 or 1) of the merge function's parameter whose header map it writes (a response, or a
+// header map itself); -1 when neither or both are written.
+func (c *Ctx) mergeTargetParam(m *ssa.Function) int {
+	if len(m.Params) != 2 {
+		return -1
+	}
+	written := map[int]bool{}
+	owner := func(v ssa.Value) {
+		c.P.TraceBack(v, TraceOpts{NoParams: true, NoHeapFields: true}, func(x ssa.Value, _ []int) bool {
+			if p, ok := x.(*ssa.Parameter); ok && p.Parent() == m {
+				written[paramIndex(m, p)] = true
+				return false
+			}
+			if u, ok := x.(*ssa.UnOp); ok {
+				if fa, ok := u.X.(*ssa.FieldAddr); ok && isHTTPResponsePtr(fa.X.Type()) {
+					if p, ok := c.An.canon(fa.X).(*ssa.Parameter); ok && p.Parent() == m {
+						written[paramIndex(m, p)] = true
+					}
+					return false
+				}
+			}
+			return true
+		})
+	}
+	for _, f := range c.reachableFrom(m) {
+		if f != m && f.Parent() != m {
+			continue
+		}
+		instrsOf(f, func(in ssa.Instruction) {
+			switch x := in.(type) {
+			case *ssa.MapUpdate:
+				if isHTTPHeader(x.Map.Type()) {
+					owner(x.Map)
+				}
+			default:
+				if cc := callOf(in); cc != nil {
+					for _, name := range []string{"Set", "Add", "Del"} {
+						if callIsMethod(cc, "net/http", "Header", name) {
+							recv, _ := recvAndArgs(cc)
+							owner(recv)
+						}
+					}
+				}
+			}
+		})
+	}
+	if len(written) != 1 {
+		return -1
+	}
+	for i := range written {
+		return i
+	}
+	return -1
+}
+
+// responseKindsOfArg: ResponseKinds of a response argument, or of the response whose Header field a header-map argument
+// was loaded from.
+func (c *Ctx) responseKindsOfArg(a ssa.Value) map[string]bool {
+	if !isHTTPHeader(a.Type()) {
+		return c.An.ResponseKinds(a)
+	}
+	out := map[string]bool{}
+	c.P.TraceBack(a, TraceOpts{NoHeapFields: true}, func(x ssa.Value, _ []int) bool {
+		if u, ok := x.(*ssa.UnOp); ok {
+			if fa, ok := u.X.(*ssa.FieldAddr); ok && isHTTPResponsePtr(fa.X.Type()) && isHTTPHeader(u.Type()) {
+				for k := range c.An.ResponseKinds(fa.X) {
+					out[k] = true
+				}
+				return false
+			}
+		}
+		return true
+	})
+	return out
 }
